@@ -593,7 +593,12 @@ verdict_t check_case(const scase_t& c, ctx_t& ctx)
     try
     {
         // triage aid: VERIF_SOLVER_LOG=1 prints the solver's own log of a replayed case (no influence on the verdict)
-        state = solver->minimize(function, x0, std::getenv("VERIF_SOLVER_LOG") != nullptr ? nano::make_stderr_logger() : nano::make_null_logger());
+        // half of the cases run a COPY of the configured solver (as ml::params_t::solver() and per-thread copies do); derived from
+        // the generated start point, so that old replay files keep their meaning
+        const bool via_clone = (static_cast<long long>(std::floor(std::fabs(x0(0)) * 1e6)) % 2) == 1;
+        ctx.label_if(via_clone, "solver-used-through-clone");
+        const auto cloned = via_clone ? solver->clone() : nano::rsolver_t{};
+        state = (via_clone ? *cloned : *solver).minimize(function, x0, std::getenv("VERIF_SOLVER_LOG") != nullptr ? nano::make_stderr_logger() : nano::make_null_logger());
     }
     catch (const runaway_t&)
     {
